@@ -30,6 +30,9 @@ def gen_cases(rng, tier):
     for a in ids:
         for b in ids:
             cases.append({'k': 'chan', 'a': list(a), 'b': list(b)})
+            for ta, tb in (('int', 'np'), ('np', 'int'), ('np', 'np')):      # mixed integer types for the qubit index
+                if (a[0] + b[0] + len(a[1]) + len(b[1])) % 3 == {'int': 0, 'np': 1}[ta] + (1 if tb == 'np' else 0):
+                    cases.append({'k': 'chan', 'a': list(a), 'b': list(b), 'ta': ta, 'tb': tb})
     for a in NAMES:
         for b in NAMES:
             cases.append({'k': 'qubit', 'a': a, 'b': b})
